@@ -111,6 +111,13 @@ type Session struct {
 	State       SessionState `json:"state"`
 	StateReason string       `json:"state_reason,omitempty"`
 
+	// terminating is set (under the manager's lock) by the one TerminateSession
+	// call that ends the session. Unlike State it is never written by any other
+	// operation, so an Activate/Authenticate/walled-garden change that arrives
+	// while the termination is in flight cannot re-open the session for a
+	// second termination
+	terminating bool
+
 	// Walled garden
 	WalledGarden bool   `json:"walled_garden"`
 	WalledReason string `json:"walled_reason,omitempty"`
